@@ -29,6 +29,10 @@ void *calloc(size_t a, size_t b)
  * ISO C contract (7.22.3.5: a new object whose contents equal the old one's up to the lesser of the two sizes), written for
  * arrays of pointers (the only objects that grow here: names are short, the 64-byte name buffer never grows); the old size is
  * the size of the object passed in. */
+#ifdef VG_MYFS_CUT
+/* quick variant: vector growth is a cut point, i.e. paths on which the reload produces two or more entries end here */
+void *realloc(void *p, size_t n) { __CPROVER_assume(0); return p; }
+#else
 void *realloc(void *p, size_t n)
 {
 	size_t old = __CPROVER_OBJECT_SIZE(p);
@@ -38,6 +42,7 @@ void *realloc(void *p, size_t n)
 	free(p);
 	return q;
 }
+#endif
 
 static _Bool vg_exists[3];              /* d/a, d/b, d/c present on disk */
 static _Bool vg_setfile_changed;
